@@ -324,7 +324,7 @@ func removeUnusedSinglePass(opts *FlattenOpts) (hasRemoved bool) {
 		expected[k] = struct{}{}
 	}
 
-	for _, ref := range opts.Spec.references.schemas {
+	for _, ref := range opts.Spec.references.allRefs {
 		if name, ok := definitionName(ref); ok {
 			delete(expected, name)
 		}
@@ -344,7 +344,8 @@ func removeUnusedSinglePass(opts *FlattenOpts) (hasRemoved bool) {
 	return hasRemoved
 }
 
-// definitionName yields the name of the top-level definition designated by a local $ref, i.e. "#/definitions/{name}".
+// definitionName yields the name of the top-level definition designated by a local $ref, i.e. "#/definitions/{name}",
+// or inside which a local $ref points, i.e. "#/definitions/{name}/...".
 //
 // The name is taken from the decoded JSON pointer, so names that need escaping in a $ref
 // (e.g. "a/b", "a b") are compared as they appear in the definitions section.
@@ -356,7 +357,7 @@ func definitionName(ref spec.Ref) (string, bool) {
 	}
 
 	tokens := ref.GetPointer().DecodedTokens()
-	if len(tokens) != definitionTokens || tokens[0] != "definitions" {
+	if len(tokens) < definitionTokens || tokens[0] != "definitions" {
 		return "", false
 	}
 
